@@ -218,3 +218,80 @@ func VH_C01_boolean_region_Q() {
 	vAssert("C01.boolean.set_algebra", (wr != 0) == want)
 }
 
+
+// The repository's own test operands with the region oracle (see c01_suite_data.go).
+func VH_C01_suite_region_Q() {
+	k := vChoose(0, len(vhC01SuitePairs)-1)
+	p, q := MustParseSVGPath(vhC01SuitePairs[k][0]), MustParseSVGPath(vhC01SuitePairs[k][1])
+	if !vhAllClosed(p) || !vhAllClosed(q) {
+		return // the region claim is about closed paths (open subject paths are clipped as lines)
+	}
+	pBefore, qBefore := vhCopyData(p.d), vhCopyData(q.d)
+	op := vChoose(0, 3+vTier()) // DivideBy only in the thorough tier (its region claim has recorded findings)
+	var r *Path
+	switch op {
+	case 0:
+		r = p.And(q)
+	case 1:
+		r = p.Or(q)
+	case 2:
+		r = p.Xor(q)
+	case 3:
+		r = p.Not(q)
+	default:
+		r = p.DivideBy(q)
+	}
+	vAssert("C01.suite.operands_unchanged", vhSameData(p.d, pBefore) && vhSameData(q.d, qBefore))
+	vAssert("C01.suite.wellformed", vhStructWF(r))
+	x, y := vNondetF64(), vNondetF64()
+	vAssume(-30 <= x && x <= 40 && -30 <= y && y <= 40)
+	wp, c1 := vhWindingAt(p, x, y)
+	wq, c2 := vhWindingAt(q, x, y)
+	wr, c3 := vhWindingAt(r, x, y)
+	vAssume(c1 && c2 && c3)
+	fp, fq := wp != 0, wq != 0
+	want := false
+	switch op {
+	case 0:
+		want = fp && fq
+	case 1:
+		want = fp || fq
+	case 2:
+		want = fp != fq
+	case 3:
+		want = fp && !fq
+	default:
+		want = fp
+	}
+	vAssert("C01.suite.set_algebra", (wr != 0) == want)
+}
+
+func VH_C02_suite_region_Q() {
+	k := vChoose(0, len(vhC02SuiteShapes)-1)
+	p := MustParseSVGPath(vhC02SuiteShapes[k])
+	before := vhCopyData(p.d)
+	rule := FillRule(vChoose(0, 3))
+	r := p.Settle(rule)
+	vAssert("C02.suite.receiver_unchanged", vhSameData(p.d, before))
+	vAssert("C02.suite.wellformed", vhStructWF(r))
+	x, y := vNondetF64(), vNondetF64()
+	vAssume(-30 <= x && x <= 40 && -30 <= y && y <= 40)
+	win, c1 := vhWindingAt(p, x, y)
+	wout, c2 := vhWindingAt(r, x, y)
+	vAssume(c1 && c2)
+	vAssert("C02.suite.same_region", rule.Fills(win) == (wout != 0))
+	vAssert("C02.suite.canonical_winding_0_or_1", wout == 0 || wout == 1)
+}
+
+func vhAllClosed(p *Path) bool {
+	subs, ok := vhDecode(p.d)
+	if !ok {
+		return false
+	}
+	for _, sb := range subs {
+		if !sb.closed {
+			return false
+		}
+	}
+	return true
+}
